@@ -895,6 +895,8 @@ class Interp:
                     return Obj(f"{basev.name}.{e.attr}")
                 if isinstance(basev, Poly) and e.attr in ("dtype", "device"):
                     return Obj(e.attr)
+                if isinstance(basev, Poly) and e.attr == "grad":
+                    return fn("ACCUMULATED_GRAD_ATTRIBUTE", basev)  # tensor.grad: whatever backward() calls have added up so far
             if e.attr == "shape" and self.externals.get("__elementwise__"):
                 try:
                     bv = self.eval(e.value)
